@@ -305,6 +305,19 @@ def arrays_of_arrays_and_two_ports(ctx):
         got = "%s: %s" % (type(e).__name__, e)
     if got != [1, 2, 3, 4]:
         ctx.fail("an array of arrays does not decode to its integers", {"stream": "array-of-arrays"}, got, [1, 2, 3, 4])
+    # the same reply from a writer that never mentions the schema-instance namespace (no xsi:type anywhere: the array
+    # types say it all)
+    bare = ('<e:Envelope xmlns:e="%s" xmlns:xsd="%s" xmlns:soapenc="%s"><e:Body><m:fResponse xmlns:m="%s"><return '
+            'soapenc:arrayType="xsd:int[][2]">%s</return></m:fResponse></e:Body></e:Envelope>'
+            % (xmlread.ENV11, xmlread.XSD, xmlread.ENC, wsdlkit.TNS, row % "<i>1</i><i>2</i>" + row % "<i>3</i><i>4</i>"))
+    ctx.case(("array-without-xsi",), True)
+    try:
+        got = c18.leaves(wsdlkit.client(c18.make_wsdl("x:Matrix")).service.f("x", __inject={"reply": bare.encode()}))
+    except Exception as e:
+        got = "%s: %s" % (type(e).__name__, e)
+    if got != [1, 2, 3, 4]:
+        ctx.fail("an array in a reply that never declares the schema-instance namespace does not decode to its integers",
+                 {"stream": "array-without-xsi"}, got, [1, 2, 3, 4])
     parts = []
     for n, members in (("1", '<xsd:element name="n" type="xsd:int"/>'),
                        ("2", '<xsd:element name="s" type="xsd:string"/><xsd:element name="b" type="xsd:boolean"/>')):
